@@ -221,7 +221,7 @@ PROPS["C14"] = {
                   "under the rely) or IndexError; _index is only accessed under the lock (guarded-access); len; is_contiguous <=> ids are "
                   "0..len-1; flush resets everything (quiescent precondition).",
     "level_note": "Ids >= 0, single-line texts, one writer file per process. Attribute reads of the two shared counters are atomic snapshots. "
-                  "__iter__ (generator holding the lock across yields) and open/close are covered by the bounded layer only.",
+                  "__iter__ (generator holding the lock across yields): yields exactly the texts of the ids stored when the lock was taken, in ascending id order, each once, gaps skipped, and releases the lock; open/close are assumed contracts exercised by the bounded layer.",
 }
 PROPS["C05"] = {
     "units": ["contracts.c05_functormap", "contracts.c05_mulpmap", "contracts.c05_workers", "contracts.c15_buffers"],
